@@ -166,3 +166,14 @@ _add('C11',
      'Scope as in the property: nodes whose customers are never blocked (a run is cut at the first interruption of a blocked customer; nodes holding a '
      'blocked customer are skipped by the inversion clause). Open finding F-11a (reroute into the same node starts the pre-emptor twice) is '
      'reported as KNOWN-FINDING.')
+_add('C14',
+     'Loop.v (Coq): the loops of simulate_until_max_time / simulate_until_max_customers over an abstract engine, for every fuel: loop_time_post '
+     '(exactly the events dated before T are executed; none before T remains) and loop_count_post (the count was below n before every executed event '
+     'and has reached n at return). T1 C14_sound: every accepted call of the real engine returned without internal error, executed only events dated '
+     'before T and left no scheduled date before T (recomputed from raw attributes), or ran exactly until the TRUE count (completed / finished / '
+     'arrived / accepted, recomputed from customer creations, admissions and arrivals at the exit, not read from the engine counters) first reached n; '
+     'customers in the nodes are left in place. K1: one or two calls per run, all four methods, horizons incl. 0, every feature region alone and combined; '
+     'any exception in scope is a violation.',
+     'Known crash families F-02a/F-02b (interruption of a BLOCKED customer) are matched by frame-level triggers and reported as KNOWN-FINDING. The abstract '
+     'loop is tied to simulation.py by the conformance of every observed call, not by proof. Termination (liveness) is not claimed: calls cut by the frame '
+     'limit are not judged.')
